@@ -77,6 +77,21 @@ def execute(beh, inst, formalism, reuse_objects):
     single = len(inst["objs"]) == 1
     ds, objs, skw = ic.build(inst)
     st = lambda: aa.SettingsInversion(use_w_tilde=(formalism == "w_tilde"), **skw)
+    try:
+        return _execute2(beh, inst, formalism, reuse_objects, aa, single, ds, objs, st)
+    except _ReferenceRaised as e:
+        # the inversion WITHOUT preloads raises on a well-posed instance of the family: a verdict (rejected read), not a
+        # machinery failure
+        return [{"a": "Preloads", "filled": []}, {"a": "NewInversion"},
+                {"a": "Read", "q": "reconstruction", "formalism": formalism, "single": single, "raised": True,
+                 "err": f"inversion without preloads raised {e}", "k": 0, "pre_k": 0, "pre_ok": True, "cached": [], "filled": []}]
+
+
+class _ReferenceRaised(Exception):
+    pass
+
+
+def _reference(aa, ds, objs, st):
     ref = aa.Inversion(dataset=ds, linear_obj_list=objs, settings=st())
     fresh = {}
     fresh["operated_mapping_matrix"] = np.array(ref.operated_mapping_matrix)
@@ -89,6 +104,14 @@ def execute(beh, inst, formalism, reuse_objects):
     for q in ("reconstruction", "mapped_reconstructed_data", "regularization_term", "log_det_curvature_reg_matrix_term",
               "log_det_regularization_matrix_term"):
         fresh[q] = np.array(getattr(ref2, q), dtype=float).copy()
+    return fresh, Hm
+
+
+def _execute2(beh, inst, formalism, reuse_objects, aa, single, ds, objs, st):
+    try:
+        fresh, Hm = _reference(aa, ds, objs, st)
+    except Exception as e:  # noqa: BLE001
+        raise _ReferenceRaised(f"{type(e).__name__}: {str(e)[:80]}")
     recs = []
     pre = None
     pre_fp = {}
